@@ -578,6 +578,27 @@ username user1@example.com nopassword
 username user1@example.com attributes
  service-type remote-access
 `),
+		// twelve transform-sets in one line (the limit is eleven): must be refused (coverage item 30)
+		mk("twelve-transform-sets", `
+`, `
+access-list crypto-outside-1 extended permit ip 10.1.1.0 255.255.255.0 10.99.1.0 255.255.255.0
+crypto ipsec ikev1 transform-set T1 esp-aes esp-sha-hmac
+crypto ipsec ikev1 transform-set T2 esp-aes esp-sha-hmac
+crypto ipsec ikev1 transform-set T3 esp-aes esp-sha-hmac
+crypto ipsec ikev1 transform-set T4 esp-aes esp-sha-hmac
+crypto ipsec ikev1 transform-set T5 esp-aes esp-sha-hmac
+crypto ipsec ikev1 transform-set T6 esp-aes esp-sha-hmac
+crypto ipsec ikev1 transform-set T7 esp-aes esp-sha-hmac
+crypto ipsec ikev1 transform-set T8 esp-aes esp-sha-hmac
+crypto ipsec ikev1 transform-set T9 esp-aes esp-sha-hmac
+crypto ipsec ikev1 transform-set T10 esp-aes esp-sha-hmac
+crypto ipsec ikev1 transform-set T11 esp-aes esp-sha-hmac
+crypto ipsec ikev1 transform-set T12 esp-aes esp-sha-hmac
+crypto map crypto-outside 1 match address crypto-outside-1
+crypto map crypto-outside 1 set peer 10.0.0.1
+crypto map crypto-outside 1 set ikev1 transform-set T1 T2 T3 T4 T5 T6 T7 T8 T9 T10 T11 T12
+crypto map crypto-outside interface outside
+`),
 		// the target has no VPN part at all: everything is removed in an order the device accepts
 		mk("everything-removed", `
 access-list vpn-filter-DRC-0 extended permit ip host 10.3.4.1 10.1.1.0 255.255.255.0
